@@ -358,6 +358,14 @@ def c15_r1_protocol(ctx, rule="C15.R1"):
     # cached answer
     somes = option_blocks(b, "Some")
     ctx.check(len(somes) >= 2, rule, fn, "answers", "get_line answers from the cache (idx < lines.len()) or from the freshly indexed lines")
+    # ... and what it answers is the cache entry of the requested index itself (widened, not clamped, wrapped or shifted)
+    import re as _re
+    for sh, site, _e in q.def_shapes(b, 0, {}):
+        if sh.startswith("Option::Some{") or sh.startswith("Option::map(") or sh.startswith("Option::copied(") or sh.startswith("slice::get("):
+            G = "var:MutexGuard<Vec<&str>>"
+            good = sum(sh.count(x) for x in ("%s[cast<usize>(arg2)]" % G, "slice::get(%s,cast<usize>(arg2))" % G, "%s[from<usize>(arg2)]" % G, "slice::get(%s,from<usize>(arg2))" % G))
+            ok = good >= 1 and good == sh.count(G)
+            ctx.check(ok, rule, fn, "answers:requested-index", "the line returned is the cache entry at the requested index (the u32 widened; not clamped or otherwise rewritten)", ctx.site(b, *site), detail=sh[:200])
 
 
 def slice_body(ctx):
@@ -381,6 +389,21 @@ def c15_r2_units(ctx, rule="C15.R2"):
         rng = rng.x
     if not ctx.check(isinstance(rng, Agg) and len(rng.ops) == 2, rule, fn, "final:range", "str::get receives a start..end range"):
         return
+    # the text that is cut is the line get_line returned, and a line the view does not have gives None (not a slice of
+    # a made-up empty line): either the closure form `get_line(line).and_then(|line| ..)` or `let line = get_line(line)?`
+    recv = q.shape(q.arg_expr(b, gets[0][1], 0))
+    GL = "SourceView::get_line(arg1,arg2)"
+    if b.kind == "Closure":
+        rootb = ctx.body("sourceview::SourceView::get_line_slice")
+        rr = [sh for sh, _, _ in q.def_shapes(rootb, 0, {})]
+        ok = recv == "arg2" and len(rr) == 1 and rr[0].startswith("Option::and_then(%s," % GL) and getattr(q.callable_body(q.def_shapes(rootb, 0, {})[0][2]), "path", None) == b.path
+        det = recv + " / " + str(rr)[:200]
+    else:
+        ok = recv in ("try(%s)" % GL, "some(%s)" % GL)
+        det = recv
+        if ok:
+            ok = all(GL in sh for sh, _, _ in q.def_shapes(b, 0, {}) if sh.startswith("FromResidual::from_residual")) or recv.startswith("some(")
+    ctx.check(ok, rule, fn, "line:from-get_line", "the slice is cut from the line get_line(line) returned, and a line the view does not have yields None", detail=det[:300])
     byte_locals = [q.root_local(o) for o in rng.ops]
     roles = {}
     for i, l in enumerate(byte_locals):
